@@ -191,7 +191,15 @@ def _dig(it, v, width):
     t = v.t
     for i in reversed(range(width)):
         d = z3.simplify((t / (10 ** i)) % 10)
-        out.append(48 + d.as_long() if z3.is_int_value(d) else 48 + d)
+        if z3.is_int_value(d):
+            out.append(48 + d.as_long())
+        else:
+            c = 48 + d
+            it.ex.digit_of[c.get_id()] = (d, 10, c)
+            out.append(c)
+    first = next((c for c in out if not isinstance(c, int)), None)
+    if first is not None:
+        it.ex.fmt_rec[first.get_id()] = {"chars": list(out), "mag": t, "base": 10, "neg": False}
     return out
 
 
@@ -337,7 +345,13 @@ def _ascii_digit(c):
     return z3.And(c >= 48, c <= 57)
 
 
-def _num(cs):
+def _num(cs, it=None):
+    first = next((c for c in cs if not isinstance(c, int)), None)
+    if it is not None and first is not None:
+        rec = it.ex.fmt_rec.get(first.get_id())
+        if rec is not None and rec["base"] == 10 and len(rec["chars"]) == len(cs) and all(
+                (a == b) if isinstance(a, int) or isinstance(b, int) else a.eq(b) for a, b in zip(rec["chars"], cs)):
+            return mk_int(rec["mag"])
     acc = z3.IntVal(0)
     for c in cs:
         acc = acc * 10 + ((c - 48) if not isinstance(c, int) else (c - 48))
@@ -361,9 +375,9 @@ def m_fromisoformat(it, args, kw):
                     *([_ceq(cs[19], 46)] if n == 26 else []),
                     *[_bt(_ascii_digit(cs[i])) for i in range(n) if i not in (4, 7, 10, 13, 16, 19)])
         if it.decide(shape):
-            y, mo, d = _num(cs[0:4]), _num(cs[5:7]), _num(cs[8:10])
-            h, mi, sec = _num(cs[11:13]), _num(cs[14:16]), _num(cs[17:19])
-            us = _num(cs[20:26]) if n == 26 else 0
+            y, mo, d = _num(cs[0:4], it), _num(cs[5:7], it), _num(cs[8:10], it)
+            h, mi, sec = _num(cs[11:13], it), _num(cs[14:16], it), _num(cs[17:19], it)
+            us = _num(cs[20:26], it) if n == 26 else 0
             return make_dt(it, y, mo, d, h, mi, sec, us)
         # python >= 3.11 accepts other separators and some other forms of the same
         # length: not modelled exactly
@@ -406,13 +420,13 @@ def m_strptime(it, args, kw):
             shape = And(*[_ceq(cs[i], k) for i, k in ((2, 45), (5, 45), (8, 84), (11, 58), (14, 58))],
                         *[_bt(_ascii_digit(cs[i])) for i in range(17) if i not in (2, 5, 8, 11, 14)])
             if it.decide(shape):
-                yy = _num(cs[0:2])
+                yy = _num(cs[0:2], it)
                 y = M.binop(it, ast.Add(), yy, 2000) if not isinstance(yy, int) else None
                 if isinstance(yy, int):
                     y = yy + (2000 if yy < 69 else 1900)
                 else:
                     y = mk_int(z3.If(yy.t < 69, yy.t + 2000, yy.t + 1900))
-                return make_dt(it, y, _num(cs[3:5]), _num(cs[6:8]), _num(cs[9:11]), _num(cs[12:14]), _num(cs[15:17]))
+                return make_dt(it, y, _num(cs[3:5], it), _num(cs[6:8], it), _num(cs[9:11], it), _num(cs[12:14], it), _num(cs[15:17], it))
         raise Unsupported("strptime: string not of the exact zero-padded shape")
     raise Unsupported("strptime (symbolic)")
 
